@@ -795,10 +795,22 @@ class BaseEvent(BaseModel, Generic[T_EventResultType]):
     @property
     def event_bus(self) -> 'EventBus':
         """Get the EventBus that is currently processing this event"""
-        from bubus.service import EventBus, inside_handler_context
+        from bubus.service import (  # pyright: ignore[reportPrivateUsage]
+            EventBus,
+            _current_event_context,
+            _current_eventbus_context,
+            inside_handler_context,
+        )
 
         if not inside_handler_context.get():
             raise AttributeError('event_bus property can only be accessed from within an event handler')
+
+        # If this is the event being handled right now: the bus that is executing the current handler (the event may
+        # already have been forwarded on to other buses, so the last entry of event_path is not necessarily that bus)
+        current_bus = _current_eventbus_context.get()
+        current_event = _current_event_context.get()
+        if current_bus is not None and current_event is not None and current_event.event_id == self.event_id:
+            return current_bus
 
         # The event_path contains all buses this event has passed through
         # The last one in the path is the one currently processing
